@@ -16,6 +16,7 @@ inductive MStmt.FragL : MStmt → Prop
   | forInt (b w e f) : FragL (.forInt b w e f)
   | forSub (b f t) : FragL (.forSub b f t)
   | ifNonZero (f b w e) : FragL (.ifNonZero f [.int b w e f])
+  | ifNonZeroArr (f b w e) : FragL (.ifNonZeroArr f [.forInt b w e f])
 
 /-- the slots a statement of the loop fragment contributes -/
 def MStmt.slotsL : MStmt → List Slot
@@ -28,6 +29,7 @@ def MStmt.slotsL : MStmt → List Slot
   | .forInt b w e f => [.ints b w e f none]
   | .forSub b f t => [.subs b f t none none]
   | .ifNonZero f [.int b w e _] => [.opt b w e f none]
+  | .ifNonZeroArr f [.forInt b w e _] => [.optInts b w e f 0 none]
   | _ => []
 
 theorem bind_ok' {α β} {x : Outcome α} {f : α → Outcome β} {y : β}
@@ -40,6 +42,26 @@ theorem bind_ok' {α β} {x : Outcome α} {f : α → Outcome β} {y : β}
 theorem layoutML_ifNonZero {f : String} {body r : List MStmt} {m : List Slot}
     (h : layoutML (.ifNonZero f body :: r) = some m) :
     ∃ b w e, body = [.int b w e f] ∧ ∃ m', layoutML r = some m' ∧ m = .opt b w e f none :: m' := by
+  cases body with
+  | nil => simp [layoutML] at h
+  | cons x t =>
+    cases t with
+    | cons y t' => simp [layoutML] at h
+    | nil =>
+      cases x <;> try (simp [layoutML] at h; done)
+      rename_i b w e g
+      simp only [layoutML] at h
+      split at h
+      · rename_i hfg
+        subst hfg
+        simp only [Option.map_eq_some_iff] at h
+        obtain ⟨m', h1, h2⟩ := h
+        exact ⟨b, w, e, rfl, m', h1, h2.symm⟩
+      · cases h
+
+theorem layoutML_ifNonZeroArr {f : String} {body r : List MStmt} {m : List Slot}
+    (h : layoutML (.ifNonZeroArr f body :: r) = some m) :
+    ∃ b w e, body = [.forInt b w e f] ∧ ∃ m', layoutML r = some m' ∧ m = .optInts b w e f 0 none :: m' := by
   cases body with
   | nil => simp [layoutML] at h
   | cons x t =>
@@ -71,6 +93,9 @@ theorem layoutML_cons {st : MStmt} {r : List MStmt} {m : List Slot} (h : layoutM
   case ifNonZero f body =>
     obtain ⟨b, w, e, rfl, m', h1, h2⟩ := layoutML_ifNonZero h
     exact ⟨.ifNonZero f b w e, m', h1, by simp [MStmt.slotsL, h2]⟩
+  case ifNonZeroArr f body =>
+    obtain ⟨b, w, e, rfl, m', h1, h2⟩ := layoutML_ifNonZeroArr h
+    exact ⟨.ifNonZeroArr f b w e, m', h1, by simp [MStmt.slotsL, h2]⟩
   all_goals
     simp only [layoutML, Option.map_eq_some_iff] at h
     first
@@ -109,6 +134,14 @@ theorem runMStmt_frameL (C : Codecs) (andx : Bool) (s s' : MState) (st : MStmt) 
     · simp only [runMStmts, runMStmt, hx, Outcome.bind_ok, Outcome.pure_eq, Outcome.ok.injEq] at hif
       subst hif; cases b <;> rfl
     · cases hif; rfl
+  | ifNonZeroArr g b w e =>
+    rw [runMStmt] at h
+    split at h <;> try cases h
+    rename_i xs hxs
+    split at h
+    · simp only [runMStmts, runMStmt, hxs, Outcome.bind_ok, Outcome.pure_eq, Outcome.ok.injEq] at h
+      subst h; cases b <;> rfl
+    · cases h; rfl
 
 theorem runMStmts_frameL (C : Codecs) (andx : Bool) (stmts : List MStmt) :
     ∀ (m : List Slot) (s s' : MState), layoutML stmts = some m →
@@ -197,6 +230,7 @@ theorem runMStmts_layoutL {C : Codecs} {T : String → Prop} (hC : LawfulCodecs 
       | forInt b w e f => simp [intsFit] at hfit; exact hfit.2
       | forSub b f t => simpa [intsFit] using hfit
       | ifNonZero f b w e => simp [intsFit] at hfit; exact hfit.2
+      | ifNonZeroArr f b w e => simp [intsFit] at hfit; exact hfit.2
     obtain ⟨hP, hD, hH, hS⟩ := ih m' s1 s' hl' hst.2 hT' hTl' h hfit'
     have hframe := fun f => runMStmts_frameL C andx r m' s1 s' hl' h f
     cases hfragL with
@@ -268,6 +302,32 @@ theorem runMStmts_layoutL {C : Codecs} {T : String → Prop} (hC : LawfulCodecs 
       intro sl hsl
       rcases List.mem_cons.mp hsl with rfl | hsl
       · exact ⟨x, hget, hx⟩
+      · exact hS sl hsl
+    | ifNonZeroArr f b w e =>
+      simp only [MStmt.slotsL, List.cons_append, List.nil_append] at hm; subst hm
+      rw [runMStmt] at h1
+      split at h1 <;> try cases h1
+      rename_i xs hg
+      have hst1 := hst.1; simp only [emittedField] at hst1
+      have hbytes : ∃ bytes, s1.P = (s.app b bytes).P ∧ s1.D = (s.app b bytes).D ∧ s1.head = s.head ∧
+          s1.env.get f = some (.ns xs) ∧ bytes = (if xs.any (· != 0) then xs.flatMap (intBytes w e) else []) := by
+        by_cases hany : xs.any (· != 0) = true
+        · simp only [hany, ↓reduceIte, runMStmts, runMStmt, hg, Outcome.bind_ok, Outcome.pure_eq, Outcome.ok.injEq] at h1
+          subst h1
+          exact ⟨xs.flatMap (intBytes w e), rfl, rfl, by cases b <;> rfl, by cases b <;> exact hg, by simp [hany]⟩
+        · simp only [hany, Bool.false_eq_true, ↓reduceIte, Outcome.ok.injEq] at h1
+          subst h1
+          exact ⟨[], by cases b <;> simp [MState.app], by cases b <;> simp [MState.app], rfl, hg, by simp [hany]⟩
+      obtain ⟨bytes, e1, e2, e3, hs1, hb⟩ := hbytes
+      have hget : s'.env.get f = some (.ns xs) := by rw [hframe f hst1]; exact hs1
+      have hx : ∀ x ∈ xs, x < 256 ^ w := by
+        simp only [intsFit, hget, Bool.and_eq_true, List.all_eq_true, decide_eq_true_eq, Bool.and_true] at hfit; exact hfit.1
+      obtain ⟨g1, g2⟩ := layout_step C s'.env b (.optInts b w e f 0 none) rfl m' s _ s' bytes e1 e2 hP hD
+        (by simp [slotBytes, hget, hb])
+      refine ⟨g1, g2, by rw [hH, e3], ?_⟩
+      intro sl hsl
+      rcases List.mem_cons.mp hsl with rfl | hsl
+      · exact ⟨xs, hget, hx⟩
       · exact hS sl hsl
     | frag hfrag =>
     cases hfrag <;> rw [runMStmt] at h1 <;> simp only [MStmt.slotsL, List.nil_append, List.cons_append] at hm <;> subst hm
